@@ -12,6 +12,7 @@ META = {
     "level": "Decides the structural clauses: the same PMS-incremental set {IUSE, REQUIRED_USE, DEPEND, RDEPEND, PDEPEND, BDEPEND, IDEPEND} is protected, reset per eclass, collected per eclass and merged after sourcing, with PROPERTIES and RESTRICT handled identically but only under the EAPI>=8 gate at every site; every inherit call (at any depth) shields the caller's values with its own locals; INHERITED gets every sourced eclass and INHERIT the direct ones; the EAPI 0-3 implicit RDEPEND is taken from the ebuild's own DEPEND (before the eclass part is merged) and only when RDEPEND is unset; DEFINED_PHASES is '-' when no phase function exists; keys outside the EAPI's metadata keys are dropped on the Python side. Does NOT decide what bash does with concrete ebuilds.",
     "note": "",
 }
+META["technique"] += "; " + 'generic pack G on the anchored files (optional-flag shift, closures outliving a loop iteration, single-pass iterables consumed twice, %-templates built from data, in-place writes to class-level / memoised objects, generators mutating what they yielded, memo keys that are projections)'
 DF = "data/lib/pkgcore/ebd/ebuild-default-functions.bash"
 EB = "data/lib/pkgcore/ebd/ebuild.bash"
 BASE = ["IUSE", "REQUIRED_USE", "DEPEND", "RDEPEND", "PDEPEND", "BDEPEND", "IDEPEND"]
